@@ -24,6 +24,17 @@ import (
 // well-framed variants stored under /verif/corpus/C37/<target>/, and a few
 // degenerate streams.
 
+// warm builds the process-wide environment (keys, in-memory stores, uploaded files,
+// Kademlia) before f.Fuzz: the fuzz worker's per-input watchdog (10 s) must not have to
+// cover that start-up on a busy machine.
+func warm() {
+	ids()
+	fileEnv()
+	remoteEnv()
+	envKad()
+	trPool()
+}
+
 func corpusDir(name string) string {
 	root := os.Getenv("VERIF_ROOT")
 	if root == "" {
@@ -65,7 +76,7 @@ func fuzzExec(t *testing.T, tg *target, c *kase) {
 }
 
 func FuzzC37_HandshakeHandle(f *testing.F) {
-	ids()
+	warm()
 	addCorpus(f, "FuzzC37_HandshakeHandle",
 		pstub.Frames(mustMarshal(hsHonestSyn()), mustMarshal(hsHonestAck(1))),
 		pstub.Frames(mustMarshal(hsHonestSyn()), mustMarshal(&verifx.HandshakeAck{Address: &verifx.HandshakeBzzAddress{}, NetworkID: networkID, NodeMode: []byte{1}})))
@@ -75,7 +86,7 @@ func FuzzC37_HandshakeHandle(f *testing.F) {
 }
 
 func FuzzC37_HandshakeDial(f *testing.F) {
-	ids()
+	warm()
 	addCorpus(f, "FuzzC37_HandshakeDial",
 		pstub.Frame(mustMarshal(&verifx.HandshakeSynAck{Syn: hsHonestSyn(), Ack: hsHonestAck(1)})))
 	f.Fuzz(func(t *testing.T, in []byte) {
@@ -84,7 +95,7 @@ func FuzzC37_HandshakeDial(f *testing.F) {
 }
 
 func FuzzC37_RouteReq(f *testing.F) {
-	ids()
+	warm()
 	req := &rtpb.RouteReq{Dest: farAddr, Alpha: 2, UType: 1, UList: []*rtpb.UnderlayResp{honestUnderlay(otherID)},
 		Paths: []*rtpb.Path{{Sign: make([]byte, 32), Bodys: [][]byte{make([]byte, 8), make([]byte, 8)}, Items: [][]byte{addr32(0x5b), peerID.overlay.Bytes()}}}}
 	addCorpus(f, "FuzzC37_RouteReq", pstub.Frame(mustMarshal(req)))
@@ -94,7 +105,7 @@ func FuzzC37_RouteReq(f *testing.F) {
 }
 
 func FuzzC37_TrafficCheque(f *testing.F) {
-	ids()
+	warm()
 	good := jsonOf(signedCheque(peerID, nodeID, 2000))
 	f.Add(good, ethOf(peerID).Bytes(), byte(1))
 	f.Add([]byte("{}"), []byte{}, byte(2))
@@ -119,7 +130,7 @@ func FuzzC37_TrafficCheque(f *testing.F) {
 // address) so that the parsers behind the pyramid's hash check - joiner, manifest,
 // mantaray - see fuzzed content. The first chunk is the root that is asked for.
 func FuzzC37_PyramidChunks(f *testing.F) {
-	ids()
+	warm()
 	remoteEnv()
 	seed := [][]byte{nil, nil, nil}
 	for i, hc := range remotePyramid {
